@@ -18,7 +18,8 @@
  *            p            a CIF pre-filled from the tokens after `pre`
  *   everything after a `|` token is an annotation for the oracle and is ignored here.
  *
- *   answer:  ps rc=<return value> n=<callback invocations> log=<code>:<line>,…|- ptr=<ok|bad<k>> cif=<canonical dump|~>
+ *   answer:  ps rc=<return value> n=<callback invocations> log=<code>:<line>,…|- ptr=<ok|bad<k>> ops=<b>,<f>,<s>,<l>,<p>,<r> seq=<call,call,…|->
+ *            kinds=<n> cif=<canonical dump|~>
  *            post=<walk rc>,<write rc>,<modify rc>,<destroy rc>|~ [aa=<code>]
  *   aa (policy d only): the first code an ACCEPT-ALL parse of the same input into an equivalent fresh target reports (0 = none)
  *   (dump: fdump_cif canon=1 with unquoted numbers shown as unquoted character values — M0: → C0: — so that the model need
@@ -26,6 +27,39 @@
  *    M0 values.)  `ptr` = every (text, length) handed to the callback with length > 0 lay inside the scan buffer and was read.
  */
 #include "cifio.h"
+#include "internal/utils.h"
+
+/*
+ * the store calls of the productions, counted: parser.c is compiled into this file, so a function-like macro in front of it
+ * wraps every call the productions make (the declarations have been read above).  Counted: calls that return CIF_OK while the
+ * parse under observation runs — [0] cif_create_block(_internal), [1] cif_container_create_frame(_internal),
+ * [2] cif_container_set_value, [3] cif_container_create_loop, [4] cif_loop_add_packet, [5] cif_container_prune.
+ * and the ORDER of these calls with a digest of their name arguments (`seq=` field).  The model side is the trace of Model/ParserTrace.lean.
+ */
+static long ops_cnt[6];
+static int ops_on;
+static char *ops_seq;            /* the successful calls in order of occurrence: a letter b f s l p r and, for b f s the length of the
+                                    code / name in UTF-16 units, for l the number of names */
+static size_t ops_len, ops_cap;
+static int ops_count(int rc, int k, long arg) {
+    if (ops_on && rc == CIF_OK) {
+        ops_cnt[k] += 1;
+        if (ops_len + 32 > ops_cap) { ops_cap = ops_cap ? ops_cap * 2 : 256; ops_seq = (char *) realloc(ops_seq, ops_cap); }
+        if (arg >= 0) ops_len += (size_t) sprintf(ops_seq + ops_len, "%s%c%ld", ops_len ? "," : "", "bfslpr"[k], arg);
+        else ops_len += (size_t) sprintf(ops_seq + ops_len, "%s%c", ops_len ? "," : "", "bfslpr"[k]);
+    }
+    return rc;
+}
+static long ops_ulen(const UChar *u) { return u ? (long) u_strlen(u) : -1; }
+static long ops_nnames(UChar **names) { long n = 0; if (names) while (names[n]) n++; return n; }
+#define cif_create_block(c, code, b) ops_count((cif_create_block)((c), (code), (b)), 0, ops_ulen(code))
+#define cif_create_block_internal(c, code, l, b) ops_count((cif_create_block_internal)((c), (code), (l), (b)), 0, ops_ulen(code))
+#define cif_container_create_frame(c, code, f) ops_count((cif_container_create_frame)((c), (code), (f)), 1, ops_ulen(code))
+#define cif_container_create_frame_internal(c, code, l, f) ops_count((cif_container_create_frame_internal)((c), (code), (l), (f)), 1, ops_ulen(code))
+#define cif_container_set_value(c, n, v) ops_count((cif_container_set_value)((c), (n), (v)), 2, ops_ulen(n))
+#define cif_container_create_loop(c, cat, names, l) ops_count((cif_container_create_loop)((c), (cat), (names), (l)), 3, ops_nnames(names))
+#define cif_loop_add_packet(l, p) ops_count((cif_loop_add_packet)((l), (p)), 4, -1)
+#define cif_container_prune(c) ops_count((cif_container_prune)((c)), 5, -1)
 #include "parser.c"
 
 struct src { const UChar *data; size_t len; size_t pos; };
@@ -158,12 +192,20 @@ static void handle(int argc, char **argv) {
     cws = nws ? to_cstr(ws, nws) : NULL;
     ceol = neol ? to_cstr(eol, neol) : NULL;
 
+    memset(ops_cnt, 0, sizeof(ops_cnt));
+    ops_len = 0;
+    if (ops_seq) ops_seq[0] = 0;
+    ops_on = 1;
     rc = run_parse(&scanner, &source, &elog, units, len, dia, mfd, fold, prefix, nutf8, cws, ceol, cif);
+    ops_on = 0;
 
     OUT("ps rc=%d n=%ld log=", rc, elog.n);
     if (elog.n == 0) OUT("-");
     for (i = 0; i < elog.n; i++) OUT("%s%d:%lu", i ? "," : "", elog.code[i], (unsigned long) elog.line[i]);
     if (elog.badptr >= 0) OUT(" ptr=bad%ld", elog.badptr); else OUT(" ptr=ok");
+    OUT(" ops=%ld,%ld,%ld,%ld,%ld,%ld", ops_cnt[0], ops_cnt[1], ops_cnt[2], ops_cnt[3], ops_cnt[4], ops_cnt[5]);
+    OUT(" seq=%s", ops_len ? ops_seq : "-");
+    free(ops_seq); ops_seq = NULL; ops_len = ops_cap = 0;   /* per-request leak accounting: nothing may stay allocated */
     if (cif == NULL) {
         OUT(" kinds=0 cif=~ post=~");
     } else {
